@@ -1,6 +1,7 @@
 (* C14 — State export/import, Raft snapshots read offline, backup rotation, peerstore file round-trip.
    Statements only; every proof is `exact <lemma of Proofs/C14_*.v>`. *)
-From V Require Import Base.Common Model.C14_Backup Model.C14_Check Proofs.C14_Backup.
+From V Require Import Base.Common Model.C14_Backup Model.C14_Peerstore Model.C14_Check Proofs.C14_Backup Proofs.C14_Peerstore.
+From Coq Require Import Permutation.
 
 (* ---------------- backup rotation (data_helper.go makeBackup, raft.go CleanupRaft) ---------------- *)
 
@@ -67,3 +68,38 @@ Example backup_example :
   let o := fun i => match i with 0 => Some 10 | 1 => Some 11 | 3 => Some 13 | _ => None end in
   map (rotate 2 7 o) [0; 1; 2; 3; 4] = [Some 7; Some 10; None; Some 13; None].
 Proof. reflexivity. Qed.
+
+(* ---------------- peerstore file (pstoremgr.go) ---------------- *)
+
+(* for every file: LoadPeerstore returns exactly the addresses of the lines that start with '/' and parse, in file
+   order; no element is nil; ImportPeersFromPeerstore never crashes, whatever the host already knows *)
+Theorem peerstore_skips_garbage (ls : list line) :
+  load_lines ls = flat_map keep_line ls /\
+  (forall a, In a (load_lines ls) -> a <> None) /\
+  (forall self ps, import_file true self ls ps <> ICrash).
+Proof. exact (conj (load_lines_char ls) (conj (load_lines_no_nil ls) (fun self ps => import_file_no_crash self ls ps))). Qed.
+Print Assumptions peerstore_skips_garbage.
+
+(* the file written for any well-formed list of peer infos loads as their /p2p-suffixed addresses in order, and a fresh host
+   that imports it reports the same infos, in the same (priority) order, whatever the order it is asked in *)
+Theorem peerstore_roundtrip (infos : list pinfo) (self2 : N) (query : list N) :
+  wf_infos infos -> ~ In self2 (map fst infos) -> Permutation query (map fst infos) ->
+  load_lines (save_lines infos) = loaded_of infos /\ reload self2 infos query = Some infos.
+Proof. exact (fun Hw Hs Hp => conj (load_save infos) (reload_roundtrip self2 infos query Hw Hs Hp)). Qed.
+Print Assumptions peerstore_roundtrip.
+
+(* S14, before the repair (fix: LoadPeerstore skips lines that fail to parse): the line "/foo" yields a nil element and
+   the import dereferences it. Kept as the witness of what the corpus input used to do. *)
+Example peerstore_nil_before_fix :
+  load_lines_before_fix [LText slash None] = [None] /\ import_file false 0 [LText slash None] ps_empty = ICrash /\
+  load_lines [LText slash None] = [].
+Proof. repeat split. Qed.
+
+(* non-vacuity: two peers, one with two IP addresses and one with a DNS address *)
+Example peerstore_example :
+  let infos := [(5, [(1, false); (3, false)]); (7, [(2, true)])]%N in
+  wf_infos infos /\ reload 0 infos [7; 5]%N = Some infos.
+Proof.
+  split; [|reflexivity]. split; [repeat constructor; simpl; intuition discriminate|].
+  intros pi [<-|[<-|[]]]; (split; [discriminate|split; [repeat constructor; unfold tr_key; simpl; lia|simpl; auto]]).
+Qed.
